@@ -273,8 +273,9 @@ def explore_group(res, kind, group, full_limit, bound_else, label):
     total = n_interleavings(pts)
     bound = None if total <= full_limit else bound_else
     CURRENT_CASE[0] = {'kind': 'schedule', 'engine': kind, 'threads': [list(p) for p in group]}
-    stats = {'n': 0, 'bad': 0, 'pre': 0}
+    stats = {'n': 0, 'bad': 0, 'pre': 0, 'unconfirmed': 0}
     vectors = set()
+    history = []        # schedules run on eng[0] since it was built
 
     def check(x):
         stats['n'] += 1
@@ -300,7 +301,41 @@ def explore_group(res, kind, group, full_limit, bound_else, label):
                          'schedule %r: results %r, alone %r' % (x.choices, r1, base),
                          size=len(x.choices) * 10 + sum(len(t) for p in group for t in p))
                 raise _Stop()                # verdict is decided; do not pay 0.5 s per further violating schedule
+            # not reproduced on a fresh engine: the interference needs what earlier executions left on the shared
+            # engine.  Find the shortest suffix of the executions run on this engine that reproduces it.
+            k = 1
+            while True:
+                prefix = history[-k:]
+                try:
+                    r3 = replay_schedule(kind, group, x.choices, prefix)
+                except sched.Divergence:
+                    r3 = None           # this suffix alone does not even follow the same points: take a longer one
+                if r3 is not None and any(r3[i] != ('ok', base[i]) for i in range(len(group))):
+                    if r3 != replay_schedule(kind, group, x.choices, prefix):
+                        raise AssertionError('schedule replay with history not deterministic')
+                    res.fail('cross-thread parse interference after earlier parses on the engine engine=%s threads=%d' % (kind, len(group)),
+                             {'kind': 'schedule', 'engine': kind, 'threads': [list(p) for p in group],
+                              'choices': list(x.choices), 'earlier': [list(c) for c in prefix]},
+                             'after %d earlier executions of the same threads on the engine, schedule %r: results %r, alone %r'
+                             % (len(prefix), x.choices, r3, base),
+                             size=1000 * len(prefix) + len(x.choices) * 10 + sum(len(t) for p in group for t in p))
+                    raise _Stop()
+                if k >= len(history):
+                    break
+                k = min(2 * k, len(history))
+            stats['unconfirmed'] += 1
+            if stats['unconfirmed'] >= 5:
+                res.fail('cross-thread parse interference not reproducible from a fresh engine engine=%s threads=%d' % (kind, len(group)),
+                         {'kind': 'group', 'engine': kind, 'threads': [list(p) for p in group]},
+                         'schedule %r gave %r (alone %r) on the engine shared by the executions of this group, but neither the '
+                         'schedule alone nor the executions before it reproduce it on a fresh engine' % (x.choices, out, base))
+                raise _Stop()
             eng[0] = make_engine(kind)       # state may be corrupt: never carry it over
+            del history[:]
+            return
+        history.append(list(x.choices))
+        if mode['fresh']:
+            del history[:]
     try:
         try:
             n, capped = sched.explore(bodies, bound, check, reset=reset)
@@ -328,10 +363,13 @@ def explore_group(res, kind, group, full_limit, bound_else, label):
     return n
 
 
-def replay_schedule(kind, group, choices):
+def replay_schedule(kind, group, choices, earlier=()):
+    """The schedule on a fresh engine, after the `earlier` schedules of the same threads on that engine."""
     install_hooks()
     eng = make_engine(kind)
     bodies = [(lambda prog=prog: tuple(parse_outcome(eng, t) for t in prog)) for prog in group]
+    for c in earlier:
+        sched.run_schedule(bodies, c)
     x = sched.run_schedule(bodies, choices)
     return list(x.res)
 
@@ -601,7 +639,7 @@ def replay(case):
         return {'observed': repr(outs[-1]), 'expected': repr(exp), 'ok': outs[-1] == exp}
     if k == 'schedule':
         group = [tuple(p) for p in case['threads']]
-        r = replay_schedule(case['engine'], group, case['choices'])
+        r = replay_schedule(case['engine'], group, case['choices'], case.get('earlier') or ())
         exp = [('ok', tuple(baseline(case['engine'], t) for t in p)) for p in group]
         return {'observed': repr(r), 'expected': repr(exp), 'ok': r == exp}
     if k == 'fine-cold':
